@@ -518,7 +518,7 @@ func streamHist(o *Out, rng *rand.Rand, thorough bool, _ []string) {
 	alphabet := []string{"a0", "a1", "a3", "x", "r", "z", "f", "m1", "i"}
 	maxLen := 3
 	if thorough {
-		maxLen = 5
+		maxLen = 4 // 5 would be about a million cases per stream: an hour instead of minutes
 	}
 	cts := []string{"base", "batch", "dynamic", "streaming", "streamingDynamic"}
 	var rec func(prefix []string)
@@ -588,7 +588,7 @@ func streamSchema(o *Out, rng *rand.Rand, thorough bool, _ []string) {
 	ns := len(allSchemas)
 	maxLen := 3
 	if thorough {
-		maxLen = 5
+		maxLen = 4 // 5 would be about a million cases per stream: an hour instead of minutes
 	}
 	// generated pairs: a random schema tree and the same tree after one structural edit (hoist, sink, rename, swap,
 	// wrap, unwrap, retype, add, remove, metric -> non-metric)
